@@ -32,7 +32,9 @@ Lemma consts_shape_ok :
   clean_staple_load_error_aborts = false /\ clean_crt_errors_abort = [true; true; true] /\
   clean_folder_delete_error_aborts = true /\ clean_list_errors_abort = [true; false; false; false] /\
   clean_pem_type = [67; 69; 82; 84; 73; 70; 73; 67; 65; 84; 69]%N /\
-  clean_folder_empty_cmp = CmpEq /\ clean_folder_guard = true.
+  clean_folder_empty_cmp = CmpEq /\ clean_folder_guard = true /\
+  (* certificates.go expiresAt = NotAfter.Truncate(1 s).Add(1 s): [Model.expires_at] *)
+  clean_expires_trunc = second /\ clean_expires_add = second.
 Proof. repeat split; reflexivity. Qed.
 
 (** * Strings *)
